@@ -282,10 +282,7 @@ def rule_R8_R11_shape(text):
     return text, n + k
 
 
-R13_SLICE_VARS = set()
-
-
-def rule_R13_desugar(text):
+def rule_R13_desugar(text, R13_SLICE_VARS=()):
     """R13 (opt-in, `//@ desugar`): `for (I, E) in X.iter_mut().enumerate() { B }` and `for E in X.iter_mut() { B }` (shared: `for E in X.iter() { B }`) become the
     index loop they abbreviate: `let mut verif_k = 0; while verif_k < X.len() { let I = verif_k; let E = &mut X[verif_k]; B verif_k += 1; }`.
     Element values are kept (unlike R8/R11).  The loop keeps its ordinal; the expansion stays on the header line."""
@@ -1487,9 +1484,8 @@ class Generator:
                 self._count('R2b', k)
                 self.log.append({'rule': 'R2b', 'fn': path, 'count': k})
         if edit.desugar:
-            R13_SLICE_VARS.clear()
-            R13_SLICE_VARS.update(edit.desugar_vars)
-            text, k = rule_R13_desugar(text)
+            # (the named by-value / slice variables are passed as an argument: units are extracted concurrently)
+            text, k = rule_R13_desugar(text, tuple(edit.desugar_vars))
             text, k2 = rule_R13b_chunks(text)
             text, k3 = rule_R13c_chunks_take_enum(text)
             text, k4 = rule_R13d_zip(text)
